@@ -22,7 +22,12 @@ RULE = ("Exhaustive part: every integer triple with max|index| <= 6 (thorough 10
         "non-orthogonal cell (cell-less clauses: mixed-sign triple, and setting != 'p' for centring / gcd > 1 for reduce); "
         "strings: negative index or a fraction; family: rotated or non-orthogonal family; fuzz: string outside the strict grammar. "
         "Input forms of every index block: nested list / tuple, int64, int32, integer-valued float64, non-contiguous view, Fortran "
-        "order, read-only array, list of numpy integer scalars (a conversion must not write into its input).  History part: "
+        "order, read-only array, list of numpy integer scalars (a conversion must not write into its input); 30 % of the blocks "
+        "(label 'narrow') are arrays of another integer dtype - int8, int16, uint8, uint16, uint32, uint64, big-endian int16/32/64, "
+        "bool, int32/int64 with large values - whose indices are drawn from the WHOLE range of the dtype (limits included; 32/64-bit "
+        "types up to 1e5, unsigned and bool non-negative), so that h*k*l, lcm, -m, 2u-v, 2U+V or the gcd leave the dtype (label "
+        "'dt_overflow', also non-trivial); every enumerated block is repeated as a narrow signed array and its non-negative rows as "
+        "an unsigned one; all_indices also with maxindex as numpy integer scalar of every width.  History part: "
         "box_history = ONE Box object (half held by a System) built by any constructor route, queried, changed in place by every "
         "public route (vects setter, set(vects|avect,bvect,cvect|a,b,c,..|lx,..|xlo,..), model(), System.box_set with/without "
         "scale, set(), origin only), its handed-in/handed-out arrays overwritten, deep-copied, replaced by a new object, and "
@@ -35,11 +40,14 @@ ASSUMPTIONS = ["numpy linear algebra and numpy's text-to-float conversion are co
                "for strings outside the documented grammar only 'clean refusal or the numbers shown' is demanded",
                "box_history: Box.model() of a second Box is trusted to write the vectors that Box holds (used only as input of the model() route)",
                "box_history: Box.set(a=..) may build the vectors with other roundings than my cell_matrix: 32 eps relative allowed on that route",
+               "index magnitudes: up to the dtype's limits for 8/16-bit arrays, up to 1e5 for wider ones (beyond ~1.3e5 the lcm of the "
+               "documented plane algorithm exceeds 2^53 for every input form, Python ints included)",
+               "bool arrays are index arrays for the plane / vector / 3<->4 / centring conversions (0/1 indices) but not for reduce_indices ('array of ints')",
                "atheris is not importable in this restore (/verif/.deps absent): the byte-level target is replaced by "
                "Hypothesis text + mutated grammar strings (clause strings_fuzz)"]
 LEVEL_TEXT = ("All integer index triples up to |index| 6 (thorough 10) in 12 (40) cells of every crystal family are enumerated "
               "for the plane normal, zone law, 3<->4 index, centring and reduce clauses; random search covers larger indices, "
-              "array shapes and input forms, random cells, index strings and family identification; histories on one Box object "
+              "array shapes and input forms (among them every narrow / unsigned / big-endian integer dtype with indices up to the dtype's limits), random cells, index strings and family identification; histories on one Box object "
               "(in-place changes through every public route between repeated queries) and sequences of module-level calls are searched randomly.")
 TECHNIQUE = ("exhaustive enumeration + Hypothesis (single calls, object histories against an own record of the cell, call sequences); "
              "own reciprocal basis / zone law / a1,a2,a3,c basis / centring sets / gcd / regex grammar")
@@ -47,6 +55,14 @@ WALL = {'quick': 75, 'thorough': 600}
 
 EPS = ref.EPS
 K_REDUCE_2D = 'C16:reduce_indices:2d-leading-shape'
+# vector3to4 / vector4to3 (and so vector_crystal_to_cartesian with [uvtw] input) form 2u-v, 2v-u / 2U+V, 2V+U in the integer
+# dtype of the caller's array: the value wraps when it leaves that dtype (int8, int16; every unsigned dtype as soon as 2u < v)
+K_V34_DTYPE = 'C16:vector3to4-vector4to3:integer-dtype-overflow'
+# reduce_indices takes the gcd in the caller's signed dtype: gcd = |lowest value of the dtype| is not representable, comes out
+# negative, and the reduced vector points the opposite way ([-128, 0, 0] int8 -> [1, 0, 0])
+K_REDUCE_MIN = 'C16:reduce_indices:signed-dtype-minimum'
+# all_indices(maxindex = numpy unsigned scalar): -maxindex wraps
+K_ALLIDX_UNSIGNED = 'C16:all_indices:unsigned-scalar-maxindex'
 
 
 def _am():
@@ -105,6 +121,10 @@ def _arg(idx, form):
     if form == 'i32':
         return np.array(idx, dtype=np.int32)
     a = np.array(idx, dtype=np.int64)
+    if form in g16.DTYPES:                               # narrow / unsigned / big-endian / bool integer array
+        if not _fits(a, form):
+            raise RuntimeError('harness: index block %r is not representable as %s' % (idx, g16.DTYPES[form][0]))
+        return a.astype(g16.DTYPES[form][0])
     if form == 'nc':                                     # non-contiguous view: every other column of a wider array
         big = np.full(a.shape[:-1] + (2 * a.shape[-1],), 99, dtype=np.int64)
         big[..., ::2] = a
@@ -117,6 +137,59 @@ def _arg(idx, form):
     return a
 
 
+def _dt_range(form):
+    """(lo, hi) of the integer arithmetic numpy does on an array of that form (bool: 2*b, b*b ... are done in int64)"""
+    if form in g16.DTYPES and form != 'bool':
+        ii = np.iinfo(np.dtype(g16.DTYPES[form][0]))
+        return int(ii.min), int(ii.max)
+    ii = np.iinfo(np.int32 if form == 'i32' else np.int64)
+    return int(ii.min), int(ii.max)
+
+
+def _fits(a, form):
+    """can the integer block be stored in the dtype of that form"""
+    if form not in g16.DTYPES:
+        return True
+    a = np.asarray(a, dtype=np.int64)
+    if form == 'bool':
+        lo, hi = 0, 1
+    else:
+        lo, hi = _dt_range(form)
+    return a.size == 0 or (int(a.min()) >= lo and int(a.max()) <= hi)
+
+
+def _arg_fit(idx, form):
+    """the block in that form when its values can be stored in it, else as int64"""
+    return _arg(idx, form if _fits(idx, form) else 'int')
+
+
+def _leaves(form, *vals):
+    """does any of the exact integer arrays vals leave the range of the arithmetic of that form"""
+    lo, hi = _dt_range(form)
+    return any(v.size and (int(v.min()) < lo or int(v.max()) > hi) for v in (np.asarray(x, dtype=np.int64) for x in vals))
+
+
+def _plane_products_leave(P, form):
+    """the plane algorithm forms h*k*l, lcm(h,k,l), -m from the non-zero indices: do they leave the dtype of that form
+    (then an implementation working in the caller's dtype wraps around)"""
+    if form not in g16.DTYPES or form == 'bool':
+        return False
+    lo, hi = _dt_range(form)
+    for t in np.asarray(P, dtype=np.int64).reshape(-1, 3).tolist():
+        nz = [x for x in t if x]
+        if len(nz) < 2:
+            continue
+        if lo == 0:
+            return True                                  # -m of an unsigned m
+        prod, m = 1, 1
+        for x in nz:
+            prod *= x
+            m = m * abs(x) // math.gcd(m, abs(x))
+        if not (lo <= prod <= hi and m <= hi):
+            return True
+    return False
+
+
 def _untouched(arg, idx, what):
     """a conversion must not write into the caller's array"""
     if isinstance(arg, np.ndarray):
@@ -124,7 +197,12 @@ def _untouched(arg, idx, what):
 
 
 def _shape_labels(case):
-    return {'shape_' + case['shape'], 'form_' + case.get('form', 'int')}
+    f = case.get('form', 'int')
+    return {'shape_' + case['shape'], 'form_' + f} | ({'narrow'} if f in g16.DTYPES else set())
+
+
+_EXH_SIGNED = ('i8', 'i16', 'be16', 'i8', 'be32', 'i32w', 'be64', 'i8', 'i64w')
+_EXH_UNSIGNED = ('u8', 'u16', 'u8', 'u32', 'u64')
 
 
 # ----------------------------------------------------------------------------- normal: shared judgement
@@ -203,6 +281,19 @@ def oracle_normal_exh(case):
     one = miller.plane_crystal_to_cartesian(P[j].tolist(), box)
     require(np.shape(one) == (3,) and float(np.abs(np.asarray(one) - got[j]).max()) <= 1e-14,
             lambda: 'miller.plane_crystal_to_cartesian(%r) = %r but row of the block call = %r' % (P[j].tolist(), one, got[j]))
+    # the same block as an array of a narrow / big-endian signed dtype, its non-negative planes as an unsigned array
+    sform = _EXH_SIGNED[(h * 7 + k * 3) % len(_EXH_SIGNED)]
+    gotn = box.plane_crystal_to_cartesian(_arg(P.tolist(), sform))
+    require(np.shape(gotn) == got.shape and float(np.abs(gotn - got).max()) <= 1e-14,
+            lambda: 'planes %r given as %s array: normals %r, as int64 array: %r' % (P.tolist(), g16.DTYPES[sform][0], np.asarray(gotn).tolist(), got.tolist()))
+    labels.add('dt_' + sform)
+    nn = [j for j, t in enumerate(P.tolist()) if min(t) >= 0]
+    if nn:
+        uform = _EXH_UNSIGNED[(h * 7 + k * 3) % len(_EXH_UNSIGNED)]
+        gotu = box.plane_crystal_to_cartesian(_arg(P[nn].tolist(), uform))
+        require(np.shape(gotu) == got[nn].shape and float(np.abs(gotu - got[nn]).max()) <= 1e-14,
+                lambda: 'planes %r given as %s array: normals %r, as int64 array: %r' % (P[nn].tolist(), g16.DTYPES[uform][0], np.asarray(gotu).tolist(), got[nn].tolist()))
+        labels.add('dt_' + uform)
     vec = box.vector_crystal_to_cartesian(_UVW3)
     nzero, ntot = _judge_zone(vec, got, P, _UVW3, V, Gn, cond, 'zone law')
     if ref.is_hexagonal_cell(cell):
@@ -223,30 +314,17 @@ def oracle_normal_exh(case):
 
 # ----------------------------------------------------------------------------- clause conv34_exh
 
-def _check_34(miller, T3, labels=None):
-    """T3: int array (...,3).  Round trips and explicit formulas for the 3<->4 index maps."""
+def _check_34(miller, T3, form=None):
+    """T3: int array (...,3).  Round trips and explicit formulas for the 3<->4 index maps.  form: the array form of T3 (the
+    induced quadruples are then handed over in the same form when their values can be stored in it)."""
     A3 = T3                                          # the caller's form (list, tuple, any array) goes to atomman as it is
     T3 = np.asarray(T3)
     flat = T3.reshape(-1, 3).astype(np.int64)
     amax = max(1, int(np.abs(flat).max()))
     tol = 16 * EPS * amax
-    # vectors 3 -> 4
-    v4 = miller.vector3to4(A3)
-    require(isinstance(v4, np.ndarray) and v4.shape == T3.shape[:-1] + (4,), lambda: 'vector3to4 returned shape %r for input %r' % (np.shape(v4), T3.shape))
-    exp4 = np.array([[float(x) for x in ref.v3to4(*t)] for t in flat.tolist()]).reshape(v4.shape)
-    require(float(np.abs(v4 - exp4).max()) <= tol, lambda: 'vector3to4(%r) = %r, expected [(2u-v)/3,(2v-u)/3,-(u+v)/3,w] = %r' % (T3.tolist(), v4.tolist(), exp4.tolist()))
-    require(float(np.abs(v4[..., :3].sum(axis=-1)).max()) <= tol, lambda: 'vector3to4: u+v+t != 0 for %r: %r' % (T3.tolist(), v4.tolist()))
-    back = miller.vector4to3(v4)
-    require(back.shape == T3.shape and float(np.abs(back - flat.reshape(T3.shape)).max()) <= 2 * tol,
-            lambda: 'vector4to3(vector3to4(v)) != v: v = %r, back = %r' % (T3.tolist(), back.tolist()))
-    # integer quadruples [U V T W] induced by the triple (U, V, W), T = -(U+V):  4 -> 3 -> 4
-    Q = np.stack([flat[:, 0], flat[:, 1], -(flat[:, 0] + flat[:, 1]), flat[:, 2]], axis=-1).reshape(T3.shape[:-1] + (4,))
-    q3 = miller.vector4to3(Q)
-    e3 = np.array([[float(x) for x in ref.v4to3(*[Fraction(y) for y in q])] for q in Q.reshape(-1, 4).tolist()]).reshape(T3.shape)
-    require(q3.shape == T3.shape and float(np.abs(q3 - e3).max()) == 0.0,
-            lambda: 'vector4to3(%r) = %r, expected [U-T, V-T, W] = %r' % (Q.tolist(), q3.tolist(), e3.tolist()))
-    q4 = miller.vector3to4(q3)
-    require(float(np.abs(q4 - Q).max()) <= 3 * tol, lambda: 'vector3to4(vector4to3(q)) != q: q = %r, back = %r' % (Q.tolist(), q4.tolist()))
+    u, v = flat[:, 0], flat[:, 1]
+    # known finding: 2u-v, 2v-u (3->4) / 2U+V, 2V+U (4->3) are formed in the dtype of the caller's integer array
+    k3 = K_V34_DTYPE if (form is not None and _leaves(form, 2 * u, 2 * u - v, 2 * v, 2 * v - u)) else None
     # planes
     p4 = miller.plane3to4(A3)
     ep4 = np.array([ref.p3to4(*t) for t in flat.tolist()], dtype=float).reshape(T3.shape[:-1] + (4,))
@@ -255,6 +333,33 @@ def _check_34(miller, T3, labels=None):
     p3 = miller.plane4to3(p4)
     require(p3.shape == T3.shape and float(np.abs(p3 - flat.reshape(T3.shape)).max()) == 0.0,
             lambda: 'plane4to3(plane3to4(p)) != p: p = %r, back = %r' % (T3.tolist(), p3.tolist()))
+    # integer quadruples [U V T W] induced by the triple (U, V, W), T = -(U+V); (h k i l) likewise
+    Q = np.stack([flat[:, 0], flat[:, 1], -(flat[:, 0] + flat[:, 1]), flat[:, 2]], axis=-1).reshape(T3.shape[:-1] + (4,))
+    Qarg = _arg_fit(Q.tolist(), form) if form is not None else Q
+    if form is not None:
+        p3q = miller.plane4to3(Qarg)
+        require(p3q.shape == T3.shape and float(np.abs(p3q - flat.reshape(T3.shape)).max()) == 0.0,
+                lambda: 'plane4to3(%r as %s) = %r, expected %r' % (Q.tolist(), getattr(Qarg, 'dtype', form), p3q.tolist(), T3.tolist()))
+    # vectors 3 -> 4
+    v4 = miller.vector3to4(A3)
+    require(isinstance(v4, np.ndarray) and v4.shape == T3.shape[:-1] + (4,), lambda: 'vector3to4 returned shape %r for input %r' % (np.shape(v4), T3.shape))
+    exp4 = np.array([[float(x) for x in ref.v3to4(*t)] for t in flat.tolist()]).reshape(v4.shape)
+    require(float(np.abs(v4 - exp4).max()) <= tol, lambda: 'vector3to4(%r%s) = %r, expected [(2u-v)/3,(2v-u)/3,-(u+v)/3,w] = %r'
+            % (T3.tolist(), (' as %s array' % T3.dtype) if isinstance(A3, np.ndarray) else '', v4.tolist(), exp4.tolist()), k3)
+    require(float(np.abs(v4[..., :3].sum(axis=-1)).max()) <= tol, lambda: 'vector3to4: u+v+t != 0 for %r: %r' % (T3.tolist(), v4.tolist()), k3)
+    back = miller.vector4to3(v4)
+    require(back.shape == T3.shape and float(np.abs(back - flat.reshape(T3.shape)).max()) <= 2 * tol,
+            lambda: 'vector4to3(vector3to4(v)) != v: v = %r, back = %r' % (T3.tolist(), back.tolist()), k3)
+    # 4 -> 3 -> 4 on the integer quadruples
+    qf = form if (form is not None and _fits(Q, form)) else 'int'
+    k4 = K_V34_DTYPE if (form is not None and _leaves(qf, 2 * Q[..., 0], 2 * Q[..., 0] + Q[..., 1], 2 * Q[..., 1], 2 * Q[..., 1] + Q[..., 0])) else None
+    q3 = miller.vector4to3(Qarg)
+    e3 = np.array([[float(x) for x in ref.v4to3(*[Fraction(y) for y in q])] for q in Q.reshape(-1, 4).tolist()]).reshape(T3.shape)
+    require(q3.shape == T3.shape and float(np.abs(q3 - e3).max()) == 0.0,
+            lambda: 'vector4to3(%r%s) = %r, expected [U-T, V-T, W] = %r'
+            % (Q.tolist(), (' as %s array' % Qarg.dtype) if isinstance(Qarg, np.ndarray) else '', q3.tolist(), e3.tolist()), k4)
+    q4 = miller.vector3to4(q3)
+    require(float(np.abs(q4 - Q).max()) <= 3 * tol, lambda: 'vector3to4(vector4to3(q)) != q: q = %r, back = %r' % (Q.tolist(), q4.tolist()), k4)
     return v4, Q, p4
 
 
@@ -290,6 +395,9 @@ def oracle_conv34_exh(case):
     T3 = np.array([[h, k, l] for l in range(-n, n + 1) if (h, k, l) != (0, 0, 0)], dtype=np.int64)
     labels = {'triples=%d' % len(T3)}
     v4, Q, p4 = _check_34(miller, T3)
+    sform = _EXH_SIGNED[(h * 7 + k * 3) % len(_EXH_SIGNED)]
+    _check_34(miller, _arg(T3.tolist(), sform), sform)           # the same row as a narrow / big-endian signed array
+    labels.add('dt_' + sform)
     vmax = float(np.abs(V).max())
     tolc = _tolV(V, 4 * n)
     # same Cartesian direction: 3-index vector, its 4-index form, my own a1,a2,a3,c basis
@@ -378,6 +486,9 @@ def _check_centring_block(miller, s, T, integer):
     return None
 
 
+SETTINGS_INDEX = {s: i for i, s in enumerate(ref.SETTINGS)}
+
+
 def oracle_centering_exh(case):
     am, miller = _am()
     s, h, n = case['setting'], case['h'], case['n']
@@ -395,10 +506,12 @@ def oracle_centering_exh(case):
     else:
         T = grid
     _check_centring_block(miller, s, T, True)
+    sform = _EXH_SIGNED[(h * 7 + SETTINGS_INDEX[s] * 3) % len(_EXH_SIGNED)]
+    _check_centring_block(miller, s, _arg(T.tolist(), sform), True)       # the same slab as a narrow / big-endian signed array
     # explicit matrices against the block result (ties the block to the matrices judged above)
     prim = miller.vector_conventional_to_primitive(T, setting=s)
     require(float(np.abs(prim - T.astype(float) @ C2P).max()) <= 64 * EPS * n * 3, 'conversion is not linear in the indices')
-    labels = {'triples=%d' % (T.size // 3), 'set_' + s, 'shape_MN' if T.ndim == 3 else 'shape_N'}
+    labels = {'triples=%d' % (T.size // 3), 'set_' + s, 'shape_MN' if T.ndim == 3 else 'shape_N', 'dt_' + sform}
     if s != 'p':
         labels.add('nt')
     return labels
@@ -425,16 +538,29 @@ def oracle_reduce_exh(case):
     am, miller = _am()
     if case['kind'] == 'all_indices':
         m, red = case['maxindex'], case['reduce']
-        got = np.asarray(miller.all_indices(maxindex=m, reduce=red))
+        key, marg, mlabel = None, m, set()
+        if case.get('mtype'):
+            # maxindex as a numpy integer scalar.  Known finding for the unsigned ones: -maxindex wraps
+            marg = getattr(np, case['mtype'])(m)
+            mlabel = {'maxindex_' + case['mtype']}
+            key = K_ALLIDX_UNSIGNED if case['mtype'].startswith('u') else None
+        try:
+            with warnings.catch_warnings():
+                warnings.simplefilter('ignore')
+                got = np.asarray(miller.all_indices(maxindex=marg, reduce=red))
+        except TypeError as e:
+            if key is None:
+                raise
+            raise Violation('all_indices(maxindex=numpy.%s(%d), reduce=%r) raised TypeError(%s)' % (case['mtype'], m, red, e), key)
         rng = range(-m, m + 1)
         allt = [(u, v, w) for u in rng for v in rng for w in rng if (u, v, w) != (0, 0, 0)]
         exp = {t for t in allt if ref.gcd_reduce(t) == 1} if red else set(allt)
-        require(got.ndim == 2 and got.shape[1] == 3, lambda: 'all_indices returned shape %r' % (got.shape,))
+        require(got.ndim == 2 and got.shape[1] == 3, lambda: 'all_indices returned shape %r' % (got.shape,), key)
         gs = [tuple(int(x) for x in r) for r in got.tolist()]
-        require(len(set(gs)) == len(gs), 'all_indices returned duplicate rows')
-        require(set(gs) == exp, lambda: 'all_indices(maxindex=%d, reduce=%r): %d rows, expected %d; missing %r extra %r'
-                % (m, red, len(gs), len(exp), sorted(exp - set(gs))[:5], sorted(set(gs) - exp)[:5]))
-        return {'all_indices', 'reduce=%r' % red, 'triples=%d' % len(allt), 'nt'}
+        require(len(set(gs)) == len(gs), 'all_indices returned duplicate rows', key)
+        require(set(gs) == exp, lambda: 'all_indices(maxindex=%r, reduce=%r): %d rows, expected %d; missing %r extra %r'
+                % (marg, red, len(gs), len(exp), sorted(exp - set(gs))[:5], sorted(set(gs) - exp)[:5]), key)
+        return {'all_indices', 'reduce=%r' % red, 'triples=%d' % len(allt), 'nt'} | mlabel
     h, k, n = case['h'], case['k'], case['n']
     T3 = np.array([[h, k, l] for l in range(-n, n + 1) if (h, k, l) != (0, 0, 0)], dtype=np.int64)
     T4 = np.stack([T3[:, 0], T3[:, 1], -(T3[:, 0] + T3[:, 1]), T3[:, 2]], axis=-1)
@@ -448,6 +574,15 @@ def oracle_reduce_exh(case):
         j = (h * 5 + k * 3) % len(A)
         one = miller.reduce_indices(A[j].tolist())
         _judge_reduce(one, A[j])
+        # the same block as a narrow / big-endian signed array, its non-negative rows as an unsigned array
+        sform = _EXH_SIGNED[(h * 7 + k * 3) % len(_EXH_SIGNED)]
+        _judge_reduce(miller.reduce_indices(_arg(A.tolist(), sform)), A)
+        labels.add('dt_' + sform)
+        nn = [i for i, t in enumerate(A.tolist()) if min(t) >= 0]
+        if nn:
+            uform = _EXH_UNSIGNED[(h * 7 + k * 3) % len(_EXH_UNSIGNED)]
+            _judge_reduce(miller.reduce_indices(_arg(A[nn].tolist(), uform)), A[nn])
+            labels.add('dt_' + uform)
     gc = [ref.gcd_reduce(t) for t in T3.tolist()]
     if max(gc) > 1:
         labels.add('gcd>1')
@@ -488,9 +623,11 @@ def _do_normal(miller, box, V, cond, hexa, idxl, uvwl, via, four, form, labels, 
         arg = _arg(idxl, form)
         got = fn(arg)
         _untouched(arg, idxl, 'plane_crystal_to_cartesian')
-    G, Gn = _judge_normals(got, idx, V, cond, 'plane_crystal_to_cartesian', vpert)
+    G, Gn = _judge_normals(got, idx, V, cond, 'plane_crystal_to_cartesian' + ((' of a %s array' % arg.dtype) if form in g16.DTYPES else ''), vpert)
+    if _plane_products_leave(idx, form):
+        labels.add('dt_overflow')
     UVW = np.array(uvwl, dtype=np.int64)
-    vec = box.vector_crystal_to_cartesian(_arg(uvwl, form))
+    vec = box.vector_crystal_to_cartesian(_arg_fit(uvwl, form))
     nzero, ntot = _judge_zone(vec, got, idx, UVW, V, Gn, cond, 'zone law', vpert)
     if nzero:
         labels.add('in_zone')
@@ -521,8 +658,13 @@ def _do_vector(miller, box, V, hexa, idxl, via, four, form, den, labels, vpert=0
         exp = (idx.astype(float) / den) @ V
     got = np.asarray(got)
     tol = _tolV(V, 4 * int(np.abs(idx).max()), vpert)
+    key = None
+    if four and den == 1 and _leaves(form, 2 * Q[..., 0], 2 * Q[..., 0] + Q[..., 1], 2 * Q[..., 1], 2 * Q[..., 1] + Q[..., 0]):
+        key = K_V34_DTYPE                                # known finding: vector4to3 works in the dtype of the caller's array
+        labels.add('dt_overflow')
     require(got.shape == idx.shape and float(np.abs(got - exp).max()) <= tol,
-            lambda: 'vector_crystal_to_cartesian(%r) = %r, expected %r (tol %.3g)' % (np.asarray(arg).tolist(), got.tolist(), exp.tolist(), tol))
+            lambda: 'vector_crystal_to_cartesian(%r%s) = %r, expected %r (tol %.3g)'
+            % (np.asarray(arg).tolist(), (' as %s array' % arg.dtype) if isinstance(arg, np.ndarray) else '', got.tolist(), exp.tolist(), tol), key)
     if den != 1:
         labels.add('fractional')
     return got
@@ -551,7 +693,7 @@ def oracle_random(case):
         _do_normal(miller, box, V, cond, hexa, case['idx'], case['uvw'], case['via'], case['four'], case['form'], labels)
         if 'refusal_nonhex' in labels:
             return labels
-        if mixed and nonorth:
+        if (mixed and nonorth) or 'dt_overflow' in labels:
             labels.add('nt')
         return labels
 
@@ -565,12 +707,15 @@ def oracle_random(case):
 
     if op == 'conv34':
         arg = _arg(case['idx'], case['form'])
-        v4, Q, p4 = _check_34(miller, arg)
+        u, v = flat[:, 0], flat[:, 1]
+        if case['form'] in g16.DTYPES and _leaves(case['form'], 2 * u, 2 * u - v, 2 * v, 2 * v - u, 2 * u + v, 2 * v + u):
+            labels.add('dt_overflow')
+        v4, Q, p4 = _check_34(miller, arg, case['form'])
         _untouched(arg, case['idx'], 'a 3<->4 index conversion')
         if case['bad']:
             _check_guards(miller, Q, case['bad'])
             labels.add('guard')
-        if mixed:
+        if mixed or 'dt_overflow' in labels:
             labels.add('nt')
         return labels
 
@@ -596,6 +741,12 @@ def oracle_random(case):
             A = np.stack([A[..., 0], A[..., 1], -(A[..., 0] + A[..., 1]), A[..., 2]], axis=-1)
             labels.add('four')
         key = K_REDUCE_2D if A.ndim == 3 else None
+        rows = A.reshape(-1, A.shape[-1]).tolist()
+        if case['form'] in g16.DTYPES:
+            lo, hi = _dt_range(case['form'])
+            if lo < 0 and any(ref.gcd_reduce(t) == -lo for t in rows):
+                key = K_REDUCE_MIN                       # known finding: gcd = |lowest value of the dtype|
+                labels.add('dt_overflow')
         arg = _arg(A.tolist(), case['form'])
         try:
             got = miller.reduce_indices(arg)
@@ -605,10 +756,10 @@ def oracle_random(case):
         exp = _judge_reduce(got, A, key)
         again = miller.reduce_indices(exp)
         require(np.array_equal(np.asarray(again), exp), lambda: 'reduce_indices is not idempotent on %r' % exp.tolist(), key)
-        gmax = max(ref.gcd_reduce(t) for t in A.reshape(-1, A.shape[-1]).tolist())
+        gmax = max(ref.gcd_reduce(t) for t in rows)
         if gmax > 1:
             labels.add('gcd>1')
-            if mixed:
+            if mixed or case['form'] in g16.DTYPES:
                 labels.add('nt')
         return labels
     raise ValueError('unknown op %r' % op)
@@ -928,6 +1079,12 @@ def _query_held(miller, h, q, planes, uvw, labels):
         return
     rows = _sel(planes, q['sel'])
     four = q['four'] == 1 or (q['four'] == 2 and h.hexa)
+    if q['form'] in g16.UNSIGNED:
+        # unsigned array: the planes / vectors of the pool with their signs dropped; 3-index only (-(h+k) is not representable)
+        rows = [[abs(x) for x in r] for r in rows]
+        four = False
+    if q['form'] in g16.DTYPES:
+        labels.add('narrow')
     if q['shape'] == '0':
         rows = rows[:1]
     idxl = _shaped(rows, q['shape'], q['perm'])
@@ -1088,7 +1245,7 @@ def oracle_call_history(case):
         done.append(_opname(kind, sub))
         if pos < n:
             first.append(lab)
-            labels.update(x for x in lab if x.startswith(('op_', 'form_', 'set_', 'fam_')) or x in ('four', 'refusal_nonhex', 'rotated', 'fractional'))
+            labels.update(x for x in lab if x.startswith(('op_', 'form_', 'set_', 'fam_')) or x in ('four', 'refusal_nonhex', 'rotated', 'fractional', 'narrow', 'dt_overflow'))
             if kind != 'random':
                 labels.add('op_' + kind)
     kinds = {_opname(k, s) for k, s in ops}
@@ -1121,7 +1278,7 @@ def jd(x):
 # ----------------------------------------------------------------------------- clauses
 
 CLAUSES = [
-    Clause('normal_exh', oracle_normal_exh, enumerate=g16.enum_normal, min_share={'nt': 0.35, 'hex4': 0.08, 'rotated': 0.18},
+    Clause('normal_exh', oracle_normal_exh, enumerate=g16.enum_normal, min_share={'nt': 0.35, 'hex4': 0.08, 'rotated': 0.18, 'dt_i8': 0.17, 'dt_u8': 0.06},
            desc='EXHAUSTIVE, one case = one (h,k) row of 12-13 (thorough 20-21) planes in one cell: plane normal is the unit vector along '
                 'h a*+k b*+l c* (own reciprocal basis), same sense; n.[uvw] = (hu+kv+lw)/|g| for all 342 lattice vectors with |uvw|<=3 '
                 '(perpendicular exactly when the zone law holds); (hkil) = (hkl) in hexagonal cells'),
@@ -1138,17 +1295,23 @@ CLAUSES = [
            min_share={'nt': 0.25, 'op_normal': 0.18, 'op_reduce': 0.08, 'shape_MN': 0.15, 'shape_0': 0.09, 'in_zone': 0.03,
                       'refusal_nonhex': 0.05, 'four': 0.1, 'form_list': 0.15, 'fam_monoclinic': 0.035, 'fam_rhombohedral': 0.035,
                       'fam_triclinic': 0.08, 'fractional': 0.07, 'form_tuple': 0.03, 'form_i32': 0.03, 'form_nc': 0.03,
-                      'form_fortran': 0.03, 'form_ro': 0.03, 'form_npscalars': 0.03},
+                      'form_fortran': 0.03, 'form_ro': 0.03, 'form_npscalars': 0.03,
+                      'narrow': 0.15, 'dt_overflow': 0.035, 'form_i8': 0.024, 'form_u8': 0.024, 'form_i16': 0.02, 'form_u16': 0.008,
+                      'form_u32': 0.008, 'form_u64': 0.008, 'form_i32w': 0.012, 'form_i64w': 0.01, 'form_be16': 0.009, 'form_be32': 0.011,
+                      'form_be64': 0.01, 'form_bool': 0.008},
            max_share={'refusal_nonhex': 0.25},
            desc='one operation per case (normal+zone law, vector, 3<->4, centring, reduce) on index arrays of leading shape (), (N,), (M,N), '
-                'indices up to 12, list/int/float input, random cells, 4-index input accepted exactly in hexagonal cells'),
+                'indices up to 12, list/int/float input, random cells, 4-index input accepted exactly in hexagonal cells; 30 % of the blocks are '
+                'int8/int16/uint8-64/big-endian/bool/large-valued int32/int64 arrays with indices over the whole range of the dtype'),
     Clause('box_history', oracle_box_history, g16.box_history_cases, quick=2500, thorough=60000,
            min_share={'nt': 0.33, 'requery_normal': 0.28, 'requery_vector': 0.13, 'requery_family': 0.08, 'requery_with_four': 0.14,
                       'changed': 0.33, 'hex_toggled': 0.17, 'holder_system': 0.22, 'via_box_set': 0.08, 'mod_set_abc': 0.1,
                       'mod_vects_attr': 0.09, 'mod_set_vects': 0.065, 'mod_set_avect': 0.08, 'mod_model': 0.085, 'mod_model_json': 0.07,
                       'mod_set_hilo': 0.04, 'mod_set_lengths': 0.03, 'mod_default': 0.055, 'copy': 0.055, 'new_object': 0.06,
                       'rel_rotated_prev': 0.12, 'rel_same': 0.08, 'fam_intvects': 0.055, 'scribble': 0.075, 'origin_only': 0.15,
-                      'result_overwritten': 0.33, 'q_read': 0.14, 'q_family': 0.12, 'rotated': 0.2},
+                      'result_overwritten': 0.33, 'q_read': 0.14, 'q_family': 0.12, 'rotated': 0.2,
+                      'narrow': 0.35, 'dt_overflow': 0.11, 'form_i8': 0.17, 'form_u8': 0.055, 'form_i16': 0.03, 'form_u16': 0.03,
+                      'form_u32': 0.03, 'form_u64': 0.025, 'form_be16': 0.022, 'form_be32': 0.02, 'form_be64': 0.025, 'form_i64w': 0.03},
            desc='HISTORY on one Box object (half of them held by a System): built through any constructor route, queried (normals + zone law, '
                 'vectors, family, derived attributes in varying order; 3- and 4-index, every input form), changed IN PLACE through every public route '
                 '(box.vects = ..., set(vects|avect..|a..|lx..|xlo..), model(), System.box_set with and without scale, set()), origin-only changes, '
@@ -1156,7 +1319,8 @@ CLAUSES = [
                 'answer is judged against the cell as it is now'),
     Clause('call_history', oracle_call_history, g16.call_history_cases, quick=1500, thorough=40000,
            min_share={'nt': 0.38, 'related': 0.3, 'mixed': 0.13, 'several_kinds': 0.25, 'settings_mixed': 0.1, 't1_and_t2': 0.025,
-                      'cells_mixed': 0.12, 'op_centering': 0.19, 'op_normal': 0.17, 'op_strings': 0.075, 'op_family': 0.05},
+                      'cells_mixed': 0.12, 'op_centering': 0.19, 'op_normal': 0.17, 'op_strings': 0.075, 'op_family': 0.05,
+                      'narrow': 0.14, 'dt_overflow': 0.03},
            desc='HISTORY of module-level calls in one process: 2-5 complete cases of the clauses random / strings / family (half of the sequences: '
                 'one index block through the same operation with another centring setting / the same lattice in another orientation / another '
                 'lattice in the same orientation / the identical call), each judged by its own oracle, then all repeated in another order'),
